@@ -2,8 +2,9 @@
    Only statements: every proof is [exact <lemma>], followed by Print Assumptions.
    cloudpickle / th.save / zipfile are modelled as the identity on opaque blobs (tied by correspondence). *)
 From Coq Require Import List ZArith Bool String.
-From SB3V Require Import Gen.Frag_saveload Model.JsonCodec Model.SaveLoad Proofs.JsonCodecProofs Proofs.SaveLoadProofs
-  Refuted.C09_prefix_rule.
+From SB3V Require Import Gen.Frag_saveload Gen.Frag_loadflow Model.JsonCodec Model.SaveLoad Model.LoadFlow Model.SetParams
+  Proofs.JsonCodecProofs Proofs.SaveLoadProofs Proofs.LoadFlowProofs Proofs.SetParamsProofs
+  Refuted.C09_prefix_rule Refuted.C09_load_env.
 Import ListNotations.
 
 (* the decision between plain JSON and cloudpickle, as regenerated from save_util.py *)
@@ -123,3 +124,232 @@ Example C09_custom_objects_example :
   json_to_data_custom (data_to_json [("gamma"%string, JFloat 1 false); ("net_arch"%string, JTuple [JInt 4])]) [("gamma"%string, JFloat 9 false)]
   = [("gamma"%string, JFloat 9 false); ("net_arch"%string, JTuple [JInt 4])].
 Proof. reflexivity. Qed.
+
+(* ================= build round 5: load() as a state transformer, set_parameters in full, load_replay_buffer ================= *)
+Local Open Scope string_scope.
+
+(* the guards and branch tests of load / set_parameters / load_replay_buffer, as regenerated from the source *)
+Theorem C09_load_guard_fragments : forall i d o a t l f,
+  pk_raises i d = ld_pk_raises i (negb i) d (negb d) /\ spaces_missing o a = ld_spaces_missing o (negb o) a (negb a) /\ legacy_net_arch t l f = ld_legacy_net_arch t l f.
+Proof. exact (fun i d o a t l f => conj (frag_pk_raises i d) (conj (frag_spaces_missing o a) (frag_legacy_net_arch t l f))). Qed.
+Print Assumptions C09_load_guard_fragments.
+
+Theorem C09_load_flow_fragments : forall g f e u,
+  ld_env_given (negb g) g = g /\ ld_force_reset f true false = f /\ ld_n_envs_updated true false = true /\ ld_use_stored_env e (negb e) = e /\ ld_reset_noise u = u.
+Proof. exact frag_flow_tests. Qed.
+Print Assumptions C09_load_flow_fragments.
+
+Theorem C09_set_parameters_fragments : forall e d o,
+  names_raise e d = sp_names_raise e d (negb d) /\ strict_arg e = sp_strict_arg e /\ sp_is_optimizer o (negb o) = o.
+Proof. exact frag_set_parameters_tests. Qed.
+Print Assumptions C09_set_parameters_fragments.
+
+(* (a)+(b) frame condition + custom_objects, for every archive / env / force_reset / custom_objects / kwargs: a stored attribute
+   that _setup_model does not re-create (`created`), that is no state dict / torch variable, is not named in kwargs and is not
+   n_envs / _last_obs / policy_kwargs has after load the custom object if custom_objects names it, else its saved value *)
+Theorem C09_load_frame : forall ctor setup created needing,
+  (forall o n, ~ In n created -> lookup n (setup o) = lookup n o) ->
+  forall a args o nz n s,
+  load_model ctor setup needing a args = Loaded o nz ->
+  sget n (a_data a) = Some s ->
+  ~ In n created -> ~ In n (map fst (a_params a)) -> ~ In n (map fst (a_vars a)) -> lookup n (la_kwargs args) = None ->
+  n <> "n_envs" -> n <> "_last_obs" -> n <> "policy_kwargs" ->
+  lookup n o = Some (AData (match lookup_custom n (la_custom args) with Some c => c | None => load_item s end)).
+Proof. exact load_frame. Qed.
+Print Assumptions C09_load_frame.
+
+Theorem C09_load_kwargs_win : forall ctor setup created needing,
+  (forall o n, ~ In n created -> lookup n (setup o) = lookup n o) ->
+  forall a args o nz n x,
+  load_model ctor setup needing a args = Loaded o nz ->
+  ~ In n created -> ~ In n (map fst (a_params a)) -> ~ In n (map fst (a_vars a)) -> lookup n (la_kwargs args) = Some x ->
+  lookup n o = Some x.
+Proof. exact load_kwargs_win. Qed.
+Print Assumptions C09_load_kwargs_win.
+
+(* policy_kwargs comes back as convert_pk(stored): `device` deleted, net_arch = [dict] rewritten (known finding F19) *)
+Theorem C09_load_policy_kwargs : forall ctor setup created needing,
+  (forall o n, ~ In n created -> lookup n (setup o) = lookup n o) ->
+  forall a args o nz s,
+  load_model ctor setup needing a args = Loaded o nz ->
+  sget "policy_kwargs" (a_data a) = Some s ->
+  ~ In "policy_kwargs" created -> ~ In "policy_kwargs" (map fst (a_params a)) -> ~ In "policy_kwargs" (map fst (a_vars a)) ->
+  lookup "policy_kwargs" (la_kwargs args) = None ->
+  lookup "policy_kwargs" o = Some (AData (convert_pk (match lookup_custom "policy_kwargs" (la_custom args) with Some c => c | None => load_item s end))).
+Proof. exact load_policy_kwargs. Qed.
+Print Assumptions C09_load_policy_kwargs.
+
+(* (c) env bookkeeping: n_envs is the given env's; _last_obs is None iff force_reset, else the stored one; without env both are restored *)
+Theorem C09_load_env_n_envs : forall ctor setup created needing,
+  (forall o n, ~ In n created -> lookup n (setup o) = lookup n o) ->
+  forall a args o nz e,
+  load_model ctor setup needing a args = Loaded o nz -> la_env args = Some e ->
+  ~ In "n_envs" created -> ~ In "n_envs" (map fst (a_params a)) -> ~ In "n_envs" (map fst (a_vars a)) -> lookup "n_envs" (la_kwargs args) = None ->
+  lookup "n_envs" o = Some (AData (JInt (e_num_envs e))).
+Proof. exact load_env_n_envs. Qed.
+Print Assumptions C09_load_env_n_envs.
+
+Theorem C09_load_env_last_obs : forall ctor setup created needing,
+  (forall o n, ~ In n created -> lookup n (setup o) = lookup n o) ->
+  forall a args o nz e s,
+  load_model ctor setup needing a args = Loaded o nz -> la_env args = Some e ->
+  sget "_last_obs" (a_data a) = Some s ->
+  ~ In "_last_obs" created -> ~ In "_last_obs" (map fst (a_params a)) -> ~ In "_last_obs" (map fst (a_vars a)) -> lookup "_last_obs" (la_kwargs args) = None ->
+  lookup "_last_obs" o = Some (AData (if la_force_reset args then JNull
+                                      else match lookup_custom "_last_obs" (la_custom args) with Some c => c | None => load_item s end)).
+Proof. exact load_env_last_obs. Qed.
+Print Assumptions C09_load_env_last_obs.
+
+Theorem C09_load_noenv_bookkeeping : forall ctor setup created needing,
+  (forall o n, ~ In n created -> lookup n (setup o) = lookup n o) ->
+  forall a args o nz n s,
+  load_model ctor setup needing a args = Loaded o nz -> la_env args = None ->
+  sget n (a_data a) = Some s -> n <> "policy_kwargs" ->
+  ~ In n created -> ~ In n (map fst (a_params a)) -> ~ In n (map fst (a_vars a)) -> lookup n (la_kwargs args) = None ->
+  lookup n o = Some (AData (match lookup_custom n (la_custom args) with Some c => c | None => load_item s end)).
+Proof. exact load_noenv_bookkeeping. Qed.
+Print Assumptions C09_load_noenv_bookkeeping.
+
+(* the env attribute is the given env PROVIDED the archive stores none; otherwise see C09_load_given_env_wins_refuted *)
+Theorem C09_load_env_attribute : forall ctor setup created needing,
+  (forall o n, ~ In n created -> lookup n (setup o) = lookup n o) ->
+  forall a args o nz e,
+  load_model ctor setup needing a args = Loaded o nz -> la_env args = Some e -> sget "env" (a_data a) = None ->
+  ~ In "env" created -> ~ In "env" (map fst (a_params a)) -> ~ In "env" (map fst (a_vars a)) -> lookup "env" (la_kwargs args) = None ->
+  lookup "env" o = lookup "env" (ctor (Some (JOpaque (e_id e)))).
+Proof. exact load_env_attribute. Qed.
+Print Assumptions C09_load_env_attribute.
+
+Theorem C09_load_given_env_wins_refuted :
+  exists ctor setup needing a args e o nz,
+    la_env args = Some e /\ lookup "env" (la_kwargs args) = None /\
+    (forall x n, lookup n (setup x) = lookup n x) /\
+    load_model ctor setup needing a args = Loaded o nz /\
+    lookup "env" (ctor (Some (JOpaque (e_id e)))) = Some (AData (JOpaque (e_id e))) /\
+    lookup "env" o = Some (AData (JOpaque 7)) /\ JOpaque 7 <> JOpaque (e_id e) /\
+    lookup "n_envs" o = Some (AData (JInt (e_num_envs e))) /\ e_num_envs e <> 1%Z.
+Proof. exact Refuted.C09_load_env.C09_load_given_env_wins_refuted. Qed.
+Print Assumptions C09_load_given_env_wins_refuted.
+
+(* state dicts come from the archive whatever _setup_model / kwargs did *)
+Theorem C09_load_params : forall ctor setup needing a args o nz n sd,
+  load_model ctor setup needing a args = Loaded o nz -> lookup_param n (a_params a) = Some sd -> ~ In n (map fst (a_vars a)) ->
+  lookup n o = Some (AModule sd).
+Proof. exact load_params. Qed.
+Print Assumptions C09_load_params.
+
+(* (d) load raises iff a modelled guard fails - policy_kwargs differ (or cannot be compared), a space is missing in the archive,
+   check_for_correct_spaces rejects the given env, the archive's state-dict names are not the class's - with the FIRST failing
+   guard's error; otherwise it returns a model: it never continues silently past a failed guard *)
+Theorem C09_load_raises_spec : forall ctor setup needing a args,
+  match load_model ctor setup needing a args with
+  | Loaded _ _ => load_raises needing a args = None
+  | LoadRaises e => load_raises needing a args = Some e
+  end.
+Proof. exact load_raises_spec. Qed.
+Print Assumptions C09_load_raises_spec.
+
+Theorem C09_load_raises_iff : forall needing a args,
+  load_raises needing a args <> None <->
+  let d1 := step_pk (json_to_data_custom (a_data a) (la_custom args)) in
+  guard_pk (la_kwargs args) d1 = true \/ dhas "observation_space" d1 = false \/ dhas "action_space" d1 = false \/
+  (exists e, la_env args = Some e /\ e_spaces_ok e = false) \/ set_eqb (map fst (a_params a)) needing = false.
+Proof. exact load_raises_iff. Qed.
+Print Assumptions C09_load_raises_iff.
+
+Example C09_load_flow_example :
+  let a := mk_arch (data_to_json [("observation_space", JOpaque 1); ("action_space", JOpaque 2); ("gamma", JFloat 7 false); ("n_envs", JInt 1);
+                                  ("_last_obs", JOpaque 3); ("policy_kwargs", JDict [(KS "net_arch", JTuple [JInt 4])]); ("use_sde", JBool true)])
+                   [("policy", 5%Z)] [("log_ent_coef", 6%Z)] in
+  let ctor := fun env => [("env", AData (match env with Some e => e | None => JNull end)); ("gamma", AData (JFloat 0 false))] in
+  let setup := fun o => ("policy", AModule 0) :: ("lr_schedule", AData (JOpaque 8)) :: o in
+  (match load_model ctor setup ["policy"] a (mk_args (Some (mk_env 9 2 true)) false [("gamma", JFloat 1 false)] [("seed", AData (JInt 3))]) with
+   | Loaded o nz => lookup "gamma" o = Some (AData (JFloat 1 false)) /\ lookup "n_envs" o = Some (AData (JInt 2)) /\
+                    lookup "_last_obs" o = Some (AData (JOpaque 3)) /\ lookup "seed" o = Some (AData (JInt 3)) /\
+                    lookup "policy" o = Some (AModule 5) /\ lookup "env" o = Some (AData (JOpaque 9)) /\ nz = true
+   | LoadRaises _ => False end) /\
+  load_model ctor setup ["policy"] a (mk_args (Some (mk_env 9 2 false)) true [] []) = LoadRaises ESpacesMismatch /\
+  load_model ctor setup ["policy"] a (mk_args None true [] [("policy_kwargs", AData (JDict [(KS "net_arch", JTuple [JInt 3])]))]) = LoadRaises EPolicyKwargs /\
+  load_model ctor setup ["policy"; "policy.optimizer"] a (mk_args None true [] []) = LoadRaises ESetParameters.
+Proof. vm_compute. repeat split. Qed.
+
+(* ---- set_parameters(load_path_or_dict, exact_match): the full decision ---- *)
+(* exact_match=True NEVER installs silently in part: if it returns, every object needing an update was given and holds exactly
+   the given state (modules: same keys, the given tensors; optimizers: the given state) *)
+Theorem C09_set_parameters_exact_installs : forall needing params m,
+  NoDup (map fst params) -> forall m',
+  set_parameters_full true needing params m = (m', None) ->
+  forall n, In n needing ->
+  exists g, In (n, g) params /\
+    match tlookup n m with
+    | Some (TModule _) => exists sd', tlookup n m' = Some (TModule sd') /\ forall k, sd_get k sd' = sd_get k g
+    | Some (TOptim _) => tlookup n m' = Some (TOptim g)
+    | None => False
+    end.
+Proof. exact set_parameters_exact_installs. Qed.
+Print Assumptions C09_set_parameters_exact_installs.
+
+(* objects not named in the dictionary never change, raise or not *)
+Theorem C09_set_parameters_frame : forall needing params m exact n, ~ In n (map fst params) ->
+  tlookup n (fst (set_parameters_full exact needing params m)) = tlookup n m.
+Proof. exact set_parameters_frame. Qed.
+Print Assumptions C09_set_parameters_frame.
+
+(* exact_match=False: only an invalid object name raises; otherwise every given object is loaded (modules key by key) *)
+Theorem C09_set_parameters_inexact : forall needing params m,
+  NoDup (map fst params) -> forall m' e,
+  set_parameters_full false needing params m = (m', e) ->
+  (e = None /\ forall n g, In (n, g) params -> installed false m m' n g) \/ (exists n, e = Some (SPInvalidName n)).
+Proof. exact set_parameters_inexact. Qed.
+Print Assumptions C09_set_parameters_inexact.
+
+(* HONEST: the code updates object by object and compares the names afterwards - when exact_match=True raises "Names of parameters
+   do not match", every given object has ALREADY been loaded; on an invalid name / a strict failure in the middle the objects
+   before it are loaded (and the failing module has its matching keys copied), the ones after it are untouched *)
+Theorem C09_set_parameters_names_error_after_install : forall needing params m,
+  NoDup (map fst params) -> forall exact m',
+  set_parameters_full exact needing params m = (m', Some SPNames) ->
+  exact = true /\ set_eqb (map fst params) needing = false /\ forall n g, In (n, g) params -> installed exact m m' n g.
+Proof. exact set_parameters_names_error_after_install. Qed.
+Print Assumptions C09_set_parameters_names_error_after_install.
+
+Theorem C09_set_parameters_raise_in_the_middle : forall pre n g post m upd m1 u1,
+  (forall exact, sp_loop exact pre m upd = (m1, u1, None) -> tlookup n m1 = None ->
+     sp_loop exact (pre ++ (n, g) :: post) m upd = (m1, u1, Some (SPInvalidName n))) /\
+  (forall own, sp_loop true pre m upd = (m1, u1, None) -> tlookup n m1 = Some (TModule own) -> strict_ok own g = false ->
+     sp_loop true (pre ++ (n, g) :: post) m upd = (tset n (TModule (merge own g)) m1, u1, Some (SPStrict n))).
+Proof. exact (fun pre n g post m upd m1 u1 => conj (fun exact => sp_raise_invalid_name exact pre n g post m upd m1 u1)
+                                                   (fun own => sp_raise_strict pre n g post m upd m1 u1 own)). Qed.
+Print Assumptions C09_set_parameters_raise_in_the_middle.
+
+(* completeness: valid names + (exact_match) complete state dicts + (exact_match) the right set of names => no raise *)
+Theorem C09_set_parameters_no_raise : forall needing params m,
+  NoDup (map fst params) -> forall exact,
+  (forall n g, In (n, g) params -> match tlookup n m with Some (TModule own) => exact = true -> strict_ok own g = true | Some (TOptim _) => True | None => False end) ->
+  (exact = true -> set_eqb (map fst params) needing = true) ->
+  snd (set_parameters_full exact needing params m) = None.
+Proof. exact set_parameters_no_raise. Qed.
+Print Assumptions C09_set_parameters_no_raise.
+
+Example C09_set_parameters_example :
+  let m := [("policy", TModule [(1, 10); (2, 20)]); ("policy.optimizer", TOptim [(0, 5)])]%Z in
+  set_parameters_full true ["policy"; "policy.optimizer"] [("policy", [(1, 11); (2, 21)]); ("policy.optimizer", [(0, 6); (9, 9)])]%Z m
+    = ([("policy", TModule [(1, 11); (2, 21)]); ("policy.optimizer", TOptim [(0, 6); (9, 9)])]%Z, None) /\
+  (* names mismatch under exact_match: raised, but the policy has been replaced *)
+  set_parameters_full true ["policy"; "policy.optimizer"] [("policy", [(1, 11); (2, 21)])]%Z m
+    = ([("policy", TModule [(1, 11); (2, 21)]); ("policy.optimizer", TOptim [(0, 5)])]%Z, Some SPNames) /\
+  (* missing key under exact_match: raised at the module, key 1 already copied *)
+  set_parameters_full true ["policy"; "policy.optimizer"] [("policy", [(1, 11)]); ("policy.optimizer", [(0, 6)])]%Z m
+    = ([("policy", TModule [(1, 11); (2, 20)]); ("policy.optimizer", TOptim [(0, 5)])]%Z, Some (SPStrict "policy")) /\
+  set_parameters_full false ["policy"; "policy.optimizer"] [("policy", [(1, 11); (7, 7)])]%Z m
+    = ([("policy", TModule [(1, 11); (2, 20)]); ("policy.optimizer", TOptim [(0, 5)])]%Z, None) /\
+  snd (set_parameters_full false [] [("nope", [])]%Z m) = Some (SPInvalidName "nope").
+Proof. vm_compute. repeat split. Qed.
+
+(* ---- load_replay_buffer(path, truncate_last_traj): decision function = the regenerated tests ---- *)
+Theorem C09_load_replay_buffer_decision : forall i,
+  ri_buffer i = true -> (ri_her i = true -> ri_model_env i = true) ->
+  load_replay_buffer i = RbOk (rb_legacy (ri_timeout_attr i)) (rb_is_her (ri_her i) (negb (ri_her i)))
+                              (rb_is_her (ri_her i) (negb (ri_her i)) && rb_truncate (ri_truncate i)) true.
+Proof. exact frag_load_replay_buffer. Qed.
+Print Assumptions C09_load_replay_buffer_decision.
